@@ -428,6 +428,12 @@ func (s *Seg) Resolve(v ssa.Value) ssa.Value {
 						continue
 					}
 				}
+				if fv, ok := t.X.(*ssa.FreeVar); ok {
+					if st := s.lastStoreCell(fv, t); st != nil {
+						v = st
+						continue
+					}
+				}
 			}
 			return v
 		case *ssa.ChangeType:
@@ -482,6 +488,30 @@ func (s *Seg) lastStore(a *ssa.Alloc, at ssa.Instruction) ssa.Value {
 					val = nil
 				}
 			}
+		}
+	}
+	return val
+}
+
+// lastStoreCell: the value last stored through a captured cell (free variable) earlier on this
+// segment; deferred calls in between invalidate it.
+func (s *Seg) lastStoreCell(cell ssa.Value, at ssa.Instruction) ssa.Value {
+	limit, ok := s.ord[at]
+	if !ok {
+		return nil
+	}
+	var val ssa.Value
+	for _, e := range s.Events {
+		if e.Ord >= limit {
+			break
+		}
+		switch e.Kind {
+		case EvStore:
+			if e.Addr == cell {
+				val = e.Val
+			}
+		case EvRunDefers:
+			val = nil
 		}
 	}
 	return val
